@@ -25,7 +25,7 @@ func VerifConstruct() {
 		c := body[i]
 		vAssume(c == ']' || c == '[' || c == '>' || c == '<' || c == '-' || c == '"' || c == '\'' || c == 'a' || c == ' ' || c == '?' || c == '!')
 	}
-	kind := vRange("kind", 0, 4)
+	kind := vRange("kind", 0, 6)
 	var src []byte
 	var wantType TokenType
 	var wantText []byte
@@ -61,6 +61,48 @@ func VerifConstruct() {
 			vAssume(body[i] != '"' && body[i] != '<')
 		}
 		src = append(append([]byte("<e x=\""), body...), "\">"...)
+	case 5, 6:
+		// handled below: whitespace around '=' and before the '>' of an end tag
+	}
+	if kind == 5 || kind == 6 {
+		ws := func(tag string) []byte {
+			k := vRange(tag+"n", 0, 2)
+			w := vBytes(tag, k)
+			for i := range w {
+				vAssume(w[i] == ' ' || w[i] == '\t' || w[i] == '\n' || w[i] == '\r')
+			}
+			return w
+		}
+		if kind == 5 { // <e x S? = S? "v">
+			w1, w2 := ws("w"), ws("u")
+			src = append([]byte("<e x"), w1...)
+			src = append(src, '=')
+			src = append(src, w2...)
+			src = append(src, "\"v\"><z>"...)
+			l := NewLexer(parse.NewInputBytes(append(make([]byte, 0, len(src)+1), src...)))
+			tt, _ := l.Next()
+			vAssert(tt == StartTagToken, "attr-ws-starttag")
+			tt, _ = l.Next()
+			vAssert(tt == AttributeToken && string(l.Text()) == "x" && string(l.AttrVal()) == "\"v\"", "attr-with-whitespace-around-equals")
+			tt, _ = l.Next()
+			vAssert(tt == StartTagCloseToken, "attr-ws-close")
+			tt, _ = l.Next()
+			vAssert(tt == StartTagToken && string(l.Text()) == "z", "following-element-lost")
+			vReach("attr-ws")
+			return
+		}
+		w1 := ws("w") // </e S? >
+		src = append([]byte("<e></e"), w1...)
+		src = append(src, "><z>"...)
+		l := NewLexer(parse.NewInputBytes(append(make([]byte, 0, len(src)+1), src...)))
+		l.Next()
+		l.Next()
+		tt, _ := l.Next()
+		vAssert(tt == EndTagToken && string(l.Text()) == "e", "end-tag-name-with-trailing-whitespace")
+		tt, _ = l.Next()
+		vAssert(tt == StartTagToken && string(l.Text()) == "z", "following-element-lost")
+		vReach("endtag-ws")
+		return
 	}
 	src = append(src, "<z>"...)
 	l := NewLexer(parse.NewInputBytes(append(make([]byte, 0, len(src)+1), src...)))
